@@ -88,17 +88,19 @@ DiffMap(rows, pa, pb, g, path) ==
            LAMBDA t : IF t \notin DOMAIN pb THEN D(g, t, Append(path, t), "dropped")
                       ELSE IF t \notin DOMAIN pa THEN D(g, t, Append(path, t), "invented")
                       ELSE DiffItem(pa[t], pb[t], g, t, Append(path, t)))
+\* (kinds are compared before values: TLC refuses to compare a string with a record, and which field of two records it
+\*  looks at first depends on the order in which it first met the field names - an IRI list against an item list must be a
+\*  verdict, not an evaluation error; "=" is applied to values of one leaf kind only)
 DiffItem(a, b, g, t, path) ==
-  IF a = b THEN <<>>
-  ELSE IF a.k = "obj" /\ b.k = "obj" THEN
+  IF a.k # b.k THEN (IF b.k = "nil" THEN D(g, t, path, "dropped") ELSE D(g, t, path, "shape:" \o a.k \o "->" \o b.k))
+  ELSE IF a.k = "obj" THEN
          IF a.g # b.g THEN D(g, t, path, "gotype:" \o a.g \o "->" \o b.g)
          ELSE DiffMap(Props(a.g), a.p, b.p, a.g, path)
-  ELSE IF a.k \in {"source", "endpoints", "pubkey"} /\ b.k = a.k THEN DiffMap(SubRows(a.k), a.p, b.p, g \o "." \o t, path)
-  ELSE IF a.k = "list" /\ b.k = "list" THEN
+  ELSE IF a.k \in {"source", "endpoints", "pubkey"} THEN DiffMap(SubRows(a.k), a.p, b.p, g \o "." \o t, path)
+  ELSE IF a.k = "list" THEN
          IF Len(a.e) # Len(b.e) THEN D(g, t, path, IF Len(b.e) < Len(a.e) THEN "list-shorter" ELSE "list-longer")
          ELSE SeqUnion(1..Len(a.e), LAMBDA i : DiffItem(a.e[i], b.e[i], g, t, Append(path, ToString(i))))
-  ELSE IF b.k = "nil" THEN D(g, t, path, "dropped")
-  ELSE IF a.k # b.k THEN D(g, t, path, "shape:" \o a.k \o "->" \o b.k)
+  ELSE IF a = b THEN <<>>
   ELSE D(g, t, path, "changed")
 
 Diff(a, b) == DiffItem(a, b, "top", "top", <<>>)
